@@ -33,6 +33,8 @@ pub fn main(args: &[String]) -> i32 {
             println!("{} {}", hex(&sk.to_bytes()), hex(&pk.to_bytes()));
             0
         }
+        // child coldstart <ID> <seed> <threads>  ->  "ok" | "FAIL ..."
+        Some("coldstart") if args.len() == 4 => crate::coldstart::child(&args[1], args[2].parse().unwrap_or(0), args[3].parse().unwrap_or(2)),
         // child salts <n> <seedhex> <msghex> <count>  ->  one signature (hex) per line
         Some("salts") if args.len() == 5 => {
             let n: usize = args[1].parse().unwrap_or(0);
